@@ -4,7 +4,7 @@ from facts import (norm, call_name, short, subnodes, lit_value, matches_on, arm_
 from prov import Prov, has_field, has_call
 from templates import variant_table, enclosing_contexts, LOSSY_OR_REORDERING, inlined
 from tsrules import namespace_targets
-from c09 import all_elements, inl, member_type_pure
+from c09 import all_elements, inl, member_type_pure, bag_all_targets, bag_renamer, scalar_map_precedence
 from c14 import stable_pred, sections, require_fields
 
 PR = "nitrogql_printer::"
@@ -111,7 +111,7 @@ def r10a(P, R):
                     R.check("R10-a", "dispatch:%s" % enum.split("::")[-1], v == set(adt.variant_names()) and not catch, "every kind dispatched",
                             "%s dispatches %s" % (f.path, sorted(v)), loc=f.loc())
 
-    sections(R, "R10-a", ("kind-target", _part0), ("typename", _part1), ("target-direction", _part2), ("namespaces", _part3))
+    sections(R, "R10-a", ("kind-target", _part0), ("typename", _part1), ("target-direction", _part2), ("namespaces", _part3), ("scalar-map", lambda: scalar_map_precedence(P, R, "R10-a")))
 
 
 LETTER_CLASSES = ("is_ascii_alphabetic", "is_ascii_alphanumeric", "is_alphabetic", "is_alphanumeric")
@@ -198,14 +198,7 @@ def r10b(P, R):
                         "identifiers are delimited is not decided on this shape", loc=g.loc())
         else:
             R.holds("R10-b", "identifier-classes", "identifier = [A-Za-z_][A-Za-z0-9_]*: all %d letter-class tests treat `_` as a letter" % ok, loc=g.loc())
-        ml0 = P.fn(PR + "schema_type_printer::context::make_local_type_names", required=False)
-        if ml0 is None:
-            # by role: the function of the crate that builds the identifier bag (and renames against it)
-            users = [P.fns[c] for c in P.callers_of(g.path) if c in P.fns and "::tests" not in c and not P.fns[c].derived and P.fns[c].kind in ("Fn", "AssocFn")]
-            if len(users) != 1:
-                from facts import AnchorMissing
-                raise AnchorMissing("the function that renames schema types against the identifier bag (callers of get_bag_of_identifiers: %s)" % [u.path for u in users])
-            ml0 = users[0]
+        ml0 = bag_renamer(P, g)
         ml = inlined(P, ml0, pred=stable_pred(lambda x: x.path != g.path))
         pv = Prov(ml)
         uses_bag = calls_anywhere(ml, "context::get_bag_of_identifiers")
@@ -217,21 +210,7 @@ def r10b(P, R):
             R.violated("R10-b", "rename-on-clash", "make_local_type_names does not use the identifier bag at all: no clashing schema type is renamed", loc=ml0.loc())
         else:
             R.undecided("R10-b", "rename-on-clash", "make_local_type_names builds the identifier bag but no membership test on it was recognised", loc=ml0.loc())
-        # the identifier bag covers the scalar mappings of *all four* targets: the module-level alias `export type X = ...` is shared by
-        # every namespace, so a clash in any target's mapping must rename X everywhere
-        CFGS = "nitrogql_config_file::scalar_type::"
-        gi = inlined(P, g)
-        tt_params = [short(f.path) for f in (g, ml0) for t in f.sig_inputs if "TypeTarget" in t]
-        per_target = calls_anywhere(gi, "ScalarTypeConfig::get_type") or bool(tt_params)
-        if per_target:
-            R.violated("R10-b", "bag-all-targets", "the identifier bag is built per target (%s): a schema type whose name occurs only in another target's scalar mapping is not renamed, "
-                       "and the shared module-level alias of that name shadows the global identifier inside that target's namespace"
-                       % (tt_params or "get_type(target) instead of type_names()"), loc=g.loc())
-        elif calls_anywhere(gi, "ScalarTypeConfig::type_names"):
-            R.holds("R10-b", "bag-all-targets", "the bag is built from ScalarTypeConfig::type_names() (every target's mapping)", loc=g.loc())
-        else:
-            R.undecided("R10-b", "bag-all-targets", "get_bag_of_identifiers calls neither ScalarTypeConfig::type_names nor get_type; which mappings feed the bag "
-                        "is not decided", loc=g.loc())
+        bag_all_targets(P, R, "R10-b")
 
     def _part2():
         # type_names() lists every mapping of a config
@@ -541,7 +520,7 @@ def r10d(P, R):
         for i, c in tcalls:
             ctxs = enclosing_contexts(pd, i)
             cls = [x for x in ctxs if x[0] == "closure"]
-            folds = [n for n in pd.walk() if n.get("k") == "MethodCall" and n["method"] in ("fold", "try_fold") and any(a is cls[0][1] for a in n["args"])] if cls else []
+            folds = [n for n in pd.walk() if n.get("k") == "MethodCall" and n["method"] in ("fold", "try_fold", "rfold", "try_rfold", "scan") and any(a is cls[0][1] for a in n["args"])] if cls else []
             given = copies_of(c["args"][0]) if c["args"] else set()
             if folds:
                 # fold: the accumulator is the closure's first parameter
@@ -549,20 +528,30 @@ def r10d(P, R):
                 R.check("R10-d", "plugins-compose", bool(acc & given), "each plugin receives the document produced by the previous plugins",
                         "in the fold over plugins, " + BAD, loc=pd.loc())
                 continue
-            loops = [x[1] for x in ctxs if x[0] == "loop"]
-            if loops and not cls:
-                # loop: the accumulator is the local the loop body assigns a value derived from this call's result
-                acc = set()
-                for a in subnodes(loops[0]):
+            # no accumulator parameter: the accumulator, if any, is a local that the enclosing loop body / closure assigns a value
+            # derived from this call's result (a `for` loop, or `for_each` with a captured `mut` local)
+            regions = [x[1] for x in ctxs if x[0] in ("loop", "closure")]
+            in_loop = any(x[0] == "loop" for x in ctxs)
+            acc = set()
+            for region in regions:
+                for a in subnodes(region):
                     if a.get("k") == "Assign" and a["l"].get("k") == "Path" and "local" in a["l"] \
                             and any(x[0] == "call" and x[1].endswith("transform_document_for_resolvers") for x in pvc.atoms(a["r"])):
                         acc.add(a["l"]["local"])
-                if acc:
-                    R.check("R10-d", "plugins-compose", bool(acc & given), "each plugin receives the document produced by the previous plugins",
-                            "in the loop over plugins, the result of one plugin is stored in the accumulator but " + BAD, loc=pd.loc())
-                    continue
-            R.undecided("R10-d", "plugins-compose", "plugin transformations are applied neither by a fold nor by a loop that assigns an accumulator; "
-                        "whether they compose is not decided", loc=pd.loc())
+            if acc:
+                R.check("R10-d", "plugins-compose", bool(acc & given), "each plugin receives the document produced by the previous plugins",
+                        "in the loop over plugins, the result of one plugin is stored in the accumulator but " + BAD, loc=pd.loc())
+            elif cls and not in_loop:
+                # the hook is called in a closure of an iterator adaptor that threads no state (map / filter_map / find_map .. — not
+                # fold/scan) and assigns none: whatever is done with the results afterwards, no plugin can receive another's result
+                adaptors = [n["method"] for n in pd.walk() if n.get("k") == "MethodCall" and any(a is cls[0][1] for a in n["args"])]
+                R.violated("R10-d", "plugins-compose", "the plugins' transform_document_for_resolvers is called inside `%s(..)`, which threads no accumulator, "
+                           "and the closure stores the result nowhere: every plugin is handed the same document and the transformations do not "
+                           "compose (the fields excluded by one plugin require resolvers again when another plugin also transforms the document)"
+                           % (adaptors[0] if adaptors else "a closure"), loc=pd.loc())
+            else:
+                R.undecided("R10-d", "plugins-compose", "plugin transformations are applied neither by a fold nor by a loop that assigns an accumulator; "
+                            "whether they compose is not decided", loc=pd.loc())
         R.floor("R10-d", "plugin transformation sites", len(tcalls), 1)
         if root_calls and tcalls:
             pvp = Prov(pd)
